@@ -324,7 +324,8 @@ def _get_cvar_weights_from_percentile(
 
     p_max = 1.0 / indices.size
     n_var = int(percentile * indices.size)
-    p_var = percentile - n_var * p_max
+    # Rounding may produce a tiny negative remainder:
+    p_var = max(percentile - n_var * p_max, 0.0)
 
     weights = np.zeros(values.size)
     weights[indices[:n_var]] = p_max
